@@ -139,7 +139,12 @@ class LBCheck(BaseCheck):
               'out': {c: w.model_out(c) for c in chans},
               # requests whose completion is being processed right now (this dispatch is issued from
               # inside it): the balancer may or may not have released them yet
-              'completing': {c: sum(1 for r_ in w.completing if r_['channel'] is c and not r_['deliveries']) for c in chans},
+              # ... and requests whose deadline has just fired: the balancer releases them from the deadline's own
+              # callback chain and the caller gets the TimeoutError at the end of it (this dispatch may be nested
+              # inside that chain: the release made the aperture contract, a Close() failed other requests, ...)
+              'completing': {c: sum(1 for r_ in w.completing if r_['channel'] is c and not r_['deliveries']) +
+                             sum(1 for r_ in w.requests if r_['channel'] is c and not r_['deliveries'] and r_ not in w.completing
+                                 and r_['timeout'] is not None and r_['vt'] + r_['timeout'] <= env.now + 1e-6) for c in chans},
               'marked': {n.channel: n.load >= 0 for n in lb._heap[1:]},
               'size': len(chans), 'heap': heap_dump()}
 
